@@ -22,6 +22,38 @@ EXEMPT = {"reaction_info": "holds no SymPy symbols (qrules ReactionInfo, the imm
 SYMBOL_KEYED = {"parameter_defaults", "kinematic_variables"}
 
 
+def check_sequential_mapping(ctx: Check, tree: Tree, fn, rd: RD) -> None:
+    """The mapping is built by a loop over the rename pairs instead of one comprehension.  The
+    grammar of the other rules does not cover that shape (the caller reports ANALYSIS-ERROR), but
+    one hazard is decidable: if the symbols a pair applies to are selected by the name of their
+    CURRENT TARGET (a value of the mapping under construction) instead of by their own name, the
+    pairs are applied one after the other - {a: b, b: c} sends a to c, a swap collapses into a merge."""
+    for st in walk_function(fn.node):
+        if not (isinstance(st, ast.Assign) and isinstance(st.targets[0], ast.Subscript) and isinstance(st.targets[0].value, ast.Name)):
+            continue
+        if not any(isinstance(c, ast.Call) and tree.callee(c, fn) == "sympy.Symbol" for c in ast.walk(st.value)):
+            continue
+        m = st.targets[0].value.id
+        key = st.targets[0].slice
+        sel = [key] + [d.value for d in rd.closure(rd.uses(key)) if isinstance(d.value, ast.AST)]
+        sel += [d.node.iter for d in rd.closure(rd.uses(key)) if d.kind == "for" and isinstance(d.node, ast.For)]
+        for e in sel:
+            for comp in [n for n in ast.walk(e) if isinstance(n, (ast.ListComp, ast.SetComp, ast.GeneratorExp, ast.DictComp))]:
+                for gen in comp.generators:
+                    it = gen.iter
+                    over_items = isinstance(it, ast.Call) and isinstance(it.func, ast.Attribute) and it.func.attr == "items" and isinstance(it.func.value, ast.Name) and it.func.value.id == m
+                    val_names = set()
+                    if over_items and isinstance(gen.target, ast.Tuple) and len(gen.target.elts) == 2 and isinstance(gen.target.elts[1], ast.Name):
+                        val_names.add(gen.target.elts[1].id)
+                    for cond in gen.ifs:
+                        reads_value = any(isinstance(n, ast.Name) and n.id in val_names for n in ast.walk(cond)) or any(
+                            isinstance(n, ast.Subscript) and isinstance(n.value, ast.Name) and n.value.id == m for n in ast.walk(cond))
+                        if reads_value:
+                            ctx.violation("R-SIMUL", f"{fn.qual}::pairs-applied-sequentially", tree.loc(cond),
+                                          f"rename_symbols: the symbols a rename pair applies to are selected with `{unparse(cond)}` - by the name of their current target in `{m}`, not by their own name",
+                                          "{a: b, b: c} then renames a to c; a swap {a: b, b: a} merges the two symbols: the map is not applied simultaneously")
+
+
 def run(ctx: Check, tree: Tree) -> None:
     ctx.decided += [
         "R-FIELDS: every HelicityModel field (exempt: reaction_info) is a keyword of the attrs.evolve call in rename_symbols and its value derives from the symbol mapping; symbol-keyed mappings map keys and values",
@@ -50,6 +82,7 @@ def run(ctx: Check, tree: Tree) -> None:
     # the mapping variable: the dict comprehension whose values are sp.Symbol(...)
     mapping_defs = [d for d in rd.defs if d.value is not None and isinstance(d.value, ast.DictComp) and any(isinstance(c, ast.Call) and tree.callee(c, fn) == "sympy.Symbol" for c in ast.walk(d.value))]
     if len(mapping_defs) != 1:
+        check_sequential_mapping(ctx, tree, fn, rd)
         raise AnalysisError("rename_symbols: symbol mapping (dict comprehension of sp.Symbol) not found")
     mapping = mapping_defs[0]
     for f in fields:
